@@ -282,6 +282,10 @@ class Model:
         e = strip_wrappers(e)
         if norm(e) == self.G:
             return "all"
+        if isinstance(e, ast.Name) and self.in_place_sorts(e.id) and self._only_reordered(e.id):
+            # a list that is only sorted / reversed in place holds what it was bound to
+            v = self.single_value(e.id)
+            return self.nodes_coll(self.resolve(v)) if v is not None else None
         if isinstance(e, ast.Attribute) and e.attr == "nodes" and norm(e.value) == self.G:
             return "all"
         if isinstance(e, ast.Call) and isinstance(e.func, ast.Attribute) and not e.keywords:
@@ -547,6 +551,17 @@ class Model:
             if isinstance(n, ast.Subscript) and isinstance(n.ctx, (ast.Store, ast.Del)) and isinstance(n.value, ast.Name) and n.value.id == name:
                 return True
         return False
+
+    def _only_reordered(self, name: str) -> bool:
+        """the only in-place changes of the list held by local `name` are sort() / reverse()"""
+        for n in _walk_own(self.fn.body):
+            if isinstance(n, ast.Call) and isinstance(n.func, ast.Attribute) and isinstance(n.func.value, ast.Name) and n.func.value.id == name and n.func.attr in ("append", "extend", "insert", "remove", "pop", "clear", "add", "update", "discard", "setdefault"):
+                return False
+            if isinstance(n, ast.Subscript) and isinstance(n.ctx, (ast.Store, ast.Del)) and isinstance(n.value, ast.Name) and n.value.id == name:
+                return False
+            if isinstance(n, ast.AugAssign) and isinstance(n.target, ast.Name) and n.target.id == name:
+                return False
+        return True
 
     def in_place_sorts(self, name: str) -> list[ast.Call]:
         return [n for n in _walk_own(self.fn.body) if isinstance(n, ast.Call) and isinstance(n.func, ast.Attribute) and isinstance(n.func.value, ast.Name) and n.func.value.id == name and n.func.attr in ("sort", "reverse")]
